@@ -1,3 +1,4 @@
+import RedoModel.Props.C12c
 import RedoModel.Lemmas.Deps
 import RedoModel.Props.C09b
 import RedoModel.Props.C12b
